@@ -294,6 +294,9 @@ def special_forms(ctx):
                      cs.add_type("DWORD", cs.q, replace=True), cs.add_type("QWORD", "RE", replace=True),
                      cs.load("struct T { BYTE a; WORD b; DWORD c; QWORD d; };"))),
         ("empty-enum", "enum EmptyE { };\nstruct T { uint8 a; };", None),
+        ("empty-and-falsy-constants", '#define GUARD_H\n#define EMPTY_S ""\n#define ZERO 0\n#define ZERO_F 0.0\n#define EMPTY_B b""\n'
+                                      "struct T { uint8 a; };", None),
+        ("only-a-valueless-define", "#define ONLY_GUARD_H\n", None),
         ("wchar-char-arrays", "struct T { char a[4]; wchar b[2]; char c[]; wchar d[]; char *s; uint8 **pp; };", None),
     ]
     for label, text, post in forms:
